@@ -161,7 +161,12 @@ theorem pipelined_intact (buffered : Bytes) (rest : Stream) (ns : List Nat) :
   Cached.reads_pending ns { buf := buffered, conn := rest }
 
 /-- what the upstream of a CONNECT receives (io.Copy to the end of the client's stream) is
-    exactly the bytes the parser left buffered followed by everything still on the conn -/
+    exactly the bytes the parser left buffered followed by everything still on the conn —
+    whatever the request declares about a body: the CONNECT branch of dispatch never touches
+    `req.Body` (no read, no Close, which would drain a declared `Content-Length` / chunked body
+    out of the shared bufio reader), so `Req` has no body field and every byte behind the header
+    block is tunnel payload. The c18http stream drives CONNECTs with `Content-Length: N`
+    (N <, =, > the pipelined bytes) and `Transfer-Encoding: chunked` against the real handler. -/
 theorem connect_upstream_intact (r : Req) (bs : Bytes) (h : Eff.upstream bs ∈ handleConnect r) :
     bs = r.buffered ++ r.connRest.flatten := by
   unfold handleConnect at h
